@@ -267,11 +267,43 @@ func NameNodes(r *rng.R, e *Entry) {
 	}
 }
 
+// Reorder permutes what ONNX leaves unordered: the attributes of every node, the declarations of graph inputs,
+// outputs and initializers. (Node order is topological and stays.)
+func Reorder(r *rng.R, e *Entry) {
+	m := e.Model
+	for i := range m.Nodes {
+		a := append([]mb.Attr{}, m.Nodes[i].Attrs...)
+		for j := len(a) - 1; j > 0; j-- {
+			k := r.Intn(j + 1)
+			a[j], a[k] = a[k], a[j]
+		}
+		m.Nodes[i].Attrs = a
+	}
+	ins := append([]mb.IO{}, m.Inputs...)
+	for j := len(ins) - 1; j > 0; j-- {
+		k := r.Intn(j + 1)
+		ins[j], ins[k] = ins[k], ins[j]
+	}
+	m.Inputs = ins
+	outs := append([]mb.IO{}, m.Outputs...)
+	for j := len(outs) - 1; j > 0; j-- {
+		k := r.Intn(j + 1)
+		outs[j], outs[k] = outs[k], outs[j]
+	}
+	m.Outputs = outs
+	inits := append([]mb.Init{}, m.Inits...)
+	for j := len(inits) - 1; j > 0; j-- {
+		k := r.Intn(j + 1)
+		inits[j], inits[k] = inits[k], inits[j]
+	}
+	m.Inits = inits
+}
+
 // RenameTricky renames every tensor of the entry (consistently, in the model and in the input sets) to names that
 // are legal but awkward: prefixes of one another, separators, spaces, non-ASCII, very long, or differing only in
 // case. Output names of recurrent nodes are left alone (LSTM on the pinned tree only knows Y / Y_h / Y_c).
 func RenameTricky(r *rng.R, e *Entry) {
-	style := r.Intn(6)
+	style := r.Intn(8)
 	keep := map[string]bool{"Y": true, "Y_h": true, "Y_c": true, "": true}
 	names := map[string]string{}
 	n := 0
@@ -298,6 +330,15 @@ func RenameTricky(r *rng.R, e *Entry) {
 			v = fmt.Sprintf("tensör_%d_名前", n)
 		case 4:
 			v = fmt.Sprintf("%0200d", n)
+		case 6:
+			// names that become EQUAL under a normalisation nobody should apply: surrounding white space, NFC vs NFD
+			// (é as one code point or as e + combining acute), a zero-width joiner, a trailing NUL
+			base := fmt.Sprintf("caf\u00e9_%d", (n-1)/6)
+			v = []string{base, fmt.Sprintf("cafe\u0301_%d", (n-1)/6), base + " ", " " + base, base + "\u200d", base + "\t"}[(n-1)%6]
+		case 7:
+			// names that are equal as far as strings.EqualFold, ToLower or ToUpper can tell
+			base := fmt.Sprintf("Stra\u00dfe_K_%d", (n-1)/4)
+			v = []string{base, fmt.Sprintf("STRASSE_K_%d", (n-1)/4), fmt.Sprintf("stra\u00dfe_\u212a_%d", (n-1)/4), fmt.Sprintf("\u017ftra\u00dfe_k_%d", (n-1)/4)}[(n-1)%4]
 		default:
 			v = []string{"x", "X", "x_", "X_", "xX", "Xx", "x.", "X."}[n%8] + fmt.Sprint(n/8)
 		}
